@@ -514,4 +514,10 @@ example : ((matchNextSegment demoEngine (fun _ => true) demoTree [97] 0 [] defau
 /-- header constraints of the first leaf fail: the second leaf is taken -/
 example : ((matchNextSegment demoEngine (fun hid => hid != 3) demoTree [97] 0 [] default).1).1.hid = 4 := by decide
 
+/-- for EVERY node, engine and header predicate: the translated `matchNextSegment` on "a/b" from the start is the
+segment-level search on the segments `a`, `b` — an instance of `matchNextSegment_root` with nothing left to assume -/
+example (E : Engine) (hok : Nat → Bool) (t : baseTree) (h : Lib.Header) :
+    matchNextSegment E hok t [97, 47, 98] 0 [] h = (tri (matchNext E hok t.subtrees t.leaves [97] [[98]] []), t) :=
+  matchNextSegment_root E hok t [97, 47, 98] h [97] [[98]] (by decide)
+
 end Flamego.C02BaseTreeCode
